@@ -6,6 +6,8 @@
   `stepOld`/`runOld` = the code before commit f620458 (`del cache[key]`).
 -/
 import PonyVerif.Lemmas.SharedCache
+import PonyVerif.Lemmas.SharedMemo
+import PonyVerif.Gen.CacheKeys
 namespace PonyVerif.Props.C22
 open PonyVerif.Model.SharedCache
 
@@ -149,5 +151,56 @@ theorem C22_witness_fixed :
   | 0 => exact ⟨⟨⟨_, rfl⟩, 7, rfl⟩, ⟨⟨_, rfl⟩, 7, rfl⟩, trivial⟩
   | 1 => exact ⟨⟨⟨_, rfl⟩, 7, rfl⟩, trivial⟩
   | (n+2) => simp [wProgs, WFReqs]
+
+/-! ### the other process-wide caches: the memo protocol at dict-operation granularity
+
+`Model/SharedMemo.lean`: the C05 memo record (key, store key, miss branch, re-check, cacheable, pop-on-reject) with every call
+split at its operations on the shared dict; any number of threads, any schedule. -/
+
+section Memo
+open PonyVerif.Model.Memo
+
+/-- **C22, every memo cache, all schedules, any number of threads**: if the cache is transparent in C05's sense (an entry
+    that a lookup finds and accepts is the value of the lookup's own input), every value any thread ever gets out of a call
+    is exactly what its own input computes without the cache -- never another thread's data -/
+theorem C22_memo_threads {I K V : Type} [DecidableEq K] (m : Memo I K V) (ht : Transparent m)
+    (progs : List (List I)) (sched : List Nat) (t : Nat) (i : I) (v : V)
+    (h : (i, v) ∈ ((PonyVerif.Model.SharedMemo.run m (PonyVerif.Model.SharedMemo.State.init progs) sched).1.th t).results) : v = m.compute i :=
+  ((PonyVerif.Model.SharedMemo.run_inv m ht sched _ (PonyVerif.Model.SharedMemo.init_inv m progs)).2 t).1 (i, v) h
+
+/-- and the shared table only ever holds cold values under the store key of the input they belong to -/
+theorem C22_memo_table {I K V : Type} [DecidableEq K] (m : Memo I K V) (ht : Transparent m)
+    (progs : List (List I)) (sched : List Nat) (k : K) (v : V)
+    (h : (k, v) ∈ (PonyVerif.Model.SharedMemo.run m (PonyVerif.Model.SharedMemo.State.init progs) sched).1.table) :
+    ∃ j, m.skey j = k ∧ m.cacheable j = true ∧ v = m.compute j := by
+  obtain ⟨j, _, h1, h2, h3⟩ := (PonyVerif.Model.SharedMemo.run_inv m ht sched _ (PonyVerif.Model.SharedMemo.init_inv m progs)).1 (k, v) h
+  exact ⟨j, h1, h2, h3⟩
+
+/-- transparency is NEEDED: with a colliding key a thread is served the other thread's value (two threads, three steps) -/
+theorem C22_memo_collision_serves_foreign_value :
+    ∃ (m : Memo Nat Nat Nat) (progs : List (List Nat)) (sched : List Nat),
+      ((PonyVerif.Model.SharedMemo.run m (PonyVerif.Model.SharedMemo.State.init progs) sched).1.th 1).results = [(2, 1)] ∧ m.compute 2 = 2 :=
+  ⟨plain (fun _ => 0) id, [[1], [2]], [0, 0, 1], by decide, rfl⟩
+
+/-- the caches whose key is a tuple of input fields, keys AS CODED (`Gen/CacheKeys.lean`, regenerated from the source on
+    every run): whatever the miss branch computes from the fields it reads, threads never interfere through them -/
+theorem C22_threads_field_caches {W : Type} (F : List PonyVerif.Model.Memo.Val → W) (progs : List (List Env)) (sched : List Nat) (t : Nat)
+    (e : Env) (v : W) :
+    ((e, v) ∈ ((PonyVerif.Model.SharedMemo.run (fieldMemo PonyVerif.Gen.CacheKeys.string2astKey string2astDeps F) (PonyVerif.Model.SharedMemo.State.init progs) sched).1.th t).results →
+        v = F (keyOf string2astDeps e)) ∧
+    ((e, v) ∈ ((PonyVerif.Model.SharedMemo.run (fieldMemo PonyVerif.Gen.CacheKeys.astKey astDeps F) (PonyVerif.Model.SharedMemo.State.init progs) sched).1.th t).results →
+        v = F (keyOf astDeps e)) ∧
+    ((e, v) ∈ ((PonyVerif.Model.SharedMemo.run (fieldMemo PonyVerif.Gen.CacheKeys.constructedSqlKey constructedRowDeps F) (PonyVerif.Model.SharedMemo.State.init progs) sched).1.th t).results →
+        v = F (keyOf constructedRowDeps e)) ∧
+    ((e, v) ∈ ((PonyVerif.Model.SharedMemo.run (fieldMemo PonyVerif.Gen.CacheKeys.batchloadKey batchloadDeps F) (PonyVerif.Model.SharedMemo.State.init progs) sched).1.th t).results →
+        v = F (keyOf batchloadDeps e)) ∧
+    ((e, v) ∈ ((PonyVerif.Model.SharedMemo.run (fieldMemo PonyVerif.Gen.CacheKeys.findKey findRowDeps F) (PonyVerif.Model.SharedMemo.State.init progs) sched).1.th t).results →
+        v = F (keyOf findRowDeps e)) ∧
+    ((e, v) ∈ ((PonyVerif.Model.SharedMemo.run (fieldMemo PonyVerif.Gen.CacheKeys.updateSqlKey updateDeps F) (PonyVerif.Model.SharedMemo.State.init progs) sched).1.th t).results →
+        v = F (keyOf updateDeps e)) := by
+  refine ⟨fun h => ?_, fun h => ?_, fun h => ?_, fun h => ?_, fun h => ?_, fun h => ?_⟩ <;>
+    exact C22_memo_threads _ (PonyVerif.Model.SharedMemo.fieldMemo_transparent _ _ (by decide) F) progs sched t e v h
+
+end Memo
 
 end PonyVerif.Props.C22
